@@ -102,6 +102,9 @@ def work(job):
         src = Source(REPO)
         v = Verifier(src, reg, specs.make_specs(), MODELS)
         contracts.configure(v)
+        if getattr(c, "trusted", False):
+            return dict(key=key, status=("ok", ""), obligations=[], wall_s=0.0, assumptions={}, trusted={key: c.trusted_reason},
+                        inlined=[], kind="assumed", trusted_contract=True)
         if getattr(c, "kind", "function") == "race":
             from .race import race_obligations
             obls, status = race_obligations(v, c)
